@@ -61,12 +61,8 @@ def _constructed():
 
 
 def _load_known(c):
-    p = os.path.join(ROOT, "proposed", "C09-intraproxy-known.json")
-    if os.path.exists(p):
-        have = {f.get("id") for f in c.findings}
-        for f in json.load(open(p)):
-            if f.get("id") not in have:
-                c.findings.append(f)
+    """known findings come from /verif/KNOWN_FINDINGS.json only (vlib)"""
+    return
 
 
 def _desired_other_peer(e, x, kind):
